@@ -76,6 +76,12 @@ impl Report {
         }
     }
 
+    /// Real-time workloads stop early once a violation has been seen a few times or many cases were
+    /// inconclusive (every further case would wait for its watchdog again).
+    pub fn enough(&self) -> bool {
+        self.violation_counts.values().any(|c| *c >= 3) || self.inconclusive.len() >= 12
+    }
+
     pub fn merge(&mut self, other: Report) {
         self.evaluations += other.evaluations;
         self.distinct.extend(other.distinct);
